@@ -58,14 +58,32 @@ def task_worker(kind, name, tier, seed, conn):
         elif kind == "exh":
             e = C.EXHAUSTIVE[name]
             t0 = time.time()
-            res = e.fn()
+            try:
+                res = e.fn()
+            except Exception as ex:  # noqa: BLE001
+                # an exception that comes out of the code under test (innermost frame inside the repository) while the whole domain is
+                # enumerated is a failing case of the enumeration, not a crash of the checker
+                tb = traceback.extract_tb(ex.__traceback__)
+                if tb and os.path.realpath(tb[-1].filename).startswith(os.path.realpath(REPO) + os.sep):
+                    res = dict(cases=0, failures=[dict(raised="%s: %s" % (type(ex).__name__, ex), where="%s:%d %s" % (os.path.basename(tb[-1].filename), tb[-1].lineno, tb[-1].name),
+                                                      note="raised by the function under test during the enumeration")])
+                else:
+                    raise
             res = dict(res or {})
             res.update(kind="exh", key="exhaustive:" + name, seconds=round(time.time() - t0, 3), note=e.note)
             conn.send(res)
         elif kind == "bounded":
             b = C.BOUNDED[name]
             t0 = time.time()
-            res = dict(b.fn(tier, seed) or {})
+            try:
+                res = dict(b.fn(tier, seed) or {})
+            except Exception as ex:  # noqa: BLE001  (same rule as for the enumerations above)
+                tb = traceback.extract_tb(ex.__traceback__)
+                if tb and os.path.realpath(tb[-1].filename).startswith(os.path.realpath(REPO) + os.sep):
+                    res = dict(evaluations=1, distinct=1, failures=[dict(raised="%s: %s" % (type(ex).__name__, ex), where="%s:%d %s" % (os.path.basename(tb[-1].filename), tb[-1].lineno, tb[-1].name),
+                                                                        note="raised by the code under test inside the bounded stand-in")])
+                else:
+                    raise
             res.update(kind="bounded", key="bounded:" + name, bound=b.bound, seconds=round(time.time() - t0, 3))
             conn.send(res)
     except BaseException as e:  # noqa: BLE001
@@ -322,7 +340,10 @@ def decide(prop, a, seed, results, fns, abstract, t0):
     for cr in crashes:
         print("CHECKER-ERROR: %s" % cr)
 
-    trusted = sorted(set(TRUSTED_BASE + ["assumed contract (not verified): %s" % k for k in abstract]))
+    stubs_used = sorted({u[:-len(" (stub)")] for f in functions for u in (f.get("uses_contracts") or []) if u.endswith(" (stub)")})
+    trusted = sorted(set(TRUSTED_BASE + ["assumed contract (not verified): %s" % k for k in abstract]
+                         + ["callee replaced by a traced stub inside a caller's contract (its behaviour is assumed there; verified under its own contract only if it has one): %s" % k
+                            for k in stubs_used]))
     assumptions = sorted(notes | set(ASSUMPTIONS))
     samples = [o for o in obligations[:3]]
     ev = dict(
